@@ -197,6 +197,7 @@ func init() {
 				{"C", "D[1]{key=D} F#m[1] G[1] A_7[1] B[1]{key=B} E[1] F#_7[1]"},
 				{"", "Eb[1]{key=Eb} Ab[1] R[1] Bb_7[1] Cm[1]{key=Cm} G[1] Fm/Ab[1,1/2]"},
 				{"F#m", "A[1]{key=A} D[1] E[1] R[1]{key=Gm} Gm[1] Cm[1] D_7[1]"},
+				{"C", "G[1]{key=G} D[1]{key=D} A[1]{key=A} E[1]{key=E} B[1]{key=B}"}, // every instance announces: whatever falls on a boundary does too
 			} {
 				reps := 2400 // 16 800 instances: beyond 2^14
 				if !c.quick() {
@@ -204,6 +205,9 @@ func init() {
 				}
 				if c.quick() && i == 2 {
 					continue
+				}
+				if i == 3 {
+					reps = reps * 7 / 5
 				}
 				cases = append(cases, Case{"section": sec.text, "key": sec.key, "reps": reps})
 			}
